@@ -114,6 +114,9 @@ def ofBase (B : Mat3 α) : Except LatErr (Lattice α) :=
   else if lt d (lit 0) then .error .leftHanded
   else .ok ⟨B, Mat3.inv B, metricsOf B⟩
 
+/-- the reciprocal base vectors a*, b*, c* as rows (`lattice.recbase.T`) -/
+def recRows (L : Lattice α) : Mat3 α := Mat3.transpose L.recbase
+
 /-- `Lattice.reciprocal()`: `Lattice(base=recbase.T)` (same guards: may fail) -/
 def reciprocal (L : Lattice α) : Except LatErr (Lattice α) := ofBase (Mat3.transpose L.recbase)
 
